@@ -1,10 +1,18 @@
 #!/bin/bash
 # Full regression of the machinery itself: specificity (refactorings must stay silent), sensitivity (mutants must be
 # caught), every stored seeded change (must be caught), determinism.  Meant for `vp run --timeout 8h -- bash tools/run_regression.sh`.
+# Sections can be named: `bash tools/run_regression.sh sensitivity seeded determinism`; `specificity:C04,C05` limits
+# the refactoring variants to those checks.
 cd "$(dirname "$0")/.." || exit 2
-echo "=== specificity $(date +%H:%M)"; ./check selftest specificity
-echo "=== sensitivity $(date +%H:%M)"; ./check selftest sensitivity
-echo "=== seeded $(date +%H:%M)"
-for d in seeded/*/; do s=$(basename $d); case $s in *dup*) continue;; esac; python3 tools/seeded_eval.py detect $s 2>&1 | tail -1; done
-echo "=== determinism $(date +%H:%M)"; ./check selftest determinism
+sections=${@:-specificity sensitivity seeded determinism}
+for sec in $sections; do
+  case $sec in
+    specificity*) ids=$(echo "${sec#specificity}" | tr -d ':' | tr ',' ' ')
+                  echo "=== specificity $ids $(date +%H:%M)"; ./check selftest specificity $ids;;
+    sensitivity)  echo "=== sensitivity $(date +%H:%M)"; ./check selftest sensitivity;;
+    seeded)       echo "=== seeded $(date +%H:%M)"
+                  for d in seeded/*/; do s=$(basename $d); case $s in *dup*) continue;; esac; python3 tools/seeded_eval.py detect $s 2>&1 | tail -1; done;;
+    determinism)  echo "=== determinism $(date +%H:%M)"; ./check selftest determinism;;
+  esac
+done
 echo "ALLDONE $(date +%H:%M)"
